@@ -106,7 +106,7 @@ def check(case, ctx):
     for i in range(K):
         res = nlp.eval(X[i])
         evals.append(res)
-        data = obs.unpack(res, "main")
+        data = ref.override_params(obs.unpack(res, "main"), sp, m["N"])
         tr = ref.Traj(R, data, M)
         if len(tr.tk) != N + 1:
             fails.append(Fail("node-count", feats, {"len_tk": len(tr.tk), "N": N}))
